@@ -53,7 +53,7 @@ def install_requests_shim():
     zigpy.util.Requests = Requests
 
 
-def preformed_network(net: ncpmodel.NetState, pan_id=0x1A2B, channel=15):
+def preformed_network(net: ncpmodel.NetState, pan_id=0x1A2B, channel=15, stale_tables=0):
     """Puts a stored coordinator network into the NCP model (as left by an earlier run)."""
     import bellows.types as t
 
@@ -70,6 +70,11 @@ def preformed_network(net: ncpmodel.NetState, pan_id=0x1A2B, channel=15):
     net.security = dict(bitmask=0x0084 | 0x0040 | 0x0100 | 0x0200, preconfigured=bytes(range(16)),
                         network_key=bytes(range(16, 32)), seq=3, tc_eui64=net.eui64())
     net.nwk_fc, net.aps_fc = 0x1000, 0x2000
+    if stale_tables:
+        # ... a network that had been in use: link keys and children of its own are still stored
+        for i in range(stale_tables):
+            net.key_table[i] = dict(eui64=bytes([0xB0 + i]) + bytes(range(7)), key=bytes([0x50 + i]) * 16, out_fc=7, in_fc=9)
+            net.children[i] = dict(eui64=bytes([0xB8 + i]) + bytes(range(7)), nwk=0x4000 + i, type=4)
 
 
 class AppStack:
